@@ -170,6 +170,10 @@ def _configs(tier, salts):
                                 if tier == "thorough" and ns is not None and maxfun in (K, K // 2) and salt == 0:
                                     plan = {"depth": 1, "ns_letters": [1, 2, 3, 0]}
                                 out.append((cfg, plan))
+        # declared linear-algebra faults (counters across error-recovery restarts)
+        if salt == 0 or (tier == "thorough" and salt == 1):
+            for cfg, plan in cfgs.linalg_fault_cfgs(salt, tier):
+                out.append((dict(cfg, do_logging=True, tag_restart="la", tag_noise="la"), plan))
         # the broad option bank with the log switched on, every second budget up to 60
         if salt == 0 or (tier == "thorough" and salt == 1):
             plain = cfgs.broad_cfgs(salt=salt, budgets=tuple(range(1, 61, 2 if tier == "quick" else 1)), reg_budgets=(1, 5, 9))
